@@ -117,6 +117,8 @@ def _item_bytes(case: dict, line: str) -> bytes | None:
 
 
 def oracle(case: dict, real: list[str]) -> str | None:
+    if "crashed" in real:
+        return "RuntimeError escaped from the consumer (write buffer exhausted)"
     spec = case["spec"]
     sep = sers.separator(spec)
     lim = sers.limit_of(spec)
